@@ -580,8 +580,14 @@ def lean_str(s):
     return '"' + s.replace("\\", "\\\\").replace('"', '\\"') + '"'
 
 
-def extract_facts(res):
-    """run the go/types extractor on /repo's current working tree; returns (facts, selects, blocking) or None"""
+_facts_bin = None
+
+
+def facts_binary(res):
+    """build harness/facts once per process"""
+    global _facts_bin
+    if _facts_bin:
+        return _facts_bin
     s = scratch_dir()
     hdst = os.path.join(s, "h_facts")
     shutil.rmtree(hdst, ignore_errors=True)
@@ -590,6 +596,54 @@ def extract_facts(res):
     rc, out = sh(["go", "build", "-o", binp, "."], cwd=hdst, env=GOENV, timeout=600)
     if rc != 0:
         res.add(Problem("correspondence", "facts extractor does not build", out[-1000:]))
+        return None
+    _facts_bin = binp
+    return binp
+
+
+def check_skeleton(res, pkg, expected_path):
+    """translator-style tie for hand-modelled packages: the comment-free, alpha-renamed, whitespace-collapsed text of every
+    function of <pkg> in /repo's working tree must equal the skeleton the model was written from"""
+    binp = facts_binary(res)
+    if not binp:
+        return
+    rc, out = sh([binp, os.path.join(REPO, pkg)], cwd=REPO, env=GOENV, timeout=600)
+    if rc != 0 or "typecheck:" in out:
+        res.add(Problem("correspondence", f"facts extractor failed on package {pkg} (does the working tree type-check?)", out[-1000:]))
+        return
+    got = {}
+    for line in out.split("\n"):
+        f = line.split("\t")
+        if f[0] == "SKEL" and len(f) >= 4:
+            got[f[2]] = f[3]
+    exp = {}
+    for line in open(expected_path):
+        if line.startswith("#") or not line.strip():
+            continue
+        fn, _, text = line.rstrip("\n").partition("\t")
+        exp[fn] = text
+    diffs = []
+    for fn in sorted(set(got) | set(exp)):
+        a, b = exp.get(fn), got.get(fn)
+        if a == b:
+            continue
+        if a is None:
+            diffs.append({"function": fn, "change": "function added", "now": b[:300]})
+        elif b is None:
+            diffs.append({"function": fn, "change": "function removed"})
+        else:
+            i = next((k for k in range(min(len(a), len(b))) if a[k] != b[k]), min(len(a), len(b)))
+            diffs.append({"function": fn, "change": "body differs", "modelled": a[max(0, i - 60):i + 100], "now": b[max(0, i - 60):i + 100]})
+    res.coverage["skeleton"] = {"package": pkg, "functions_compared": len(set(got) | set(exp)), "differences": len(diffs)}
+    if diffs:
+        res.add(Problem("correspondence", f"{pkg}: the source no longer matches the code the Lean model was written from "
+                        f"({', '.join(d['function'] for d in diffs[:6])}): the theorems are about the old code", diffs[:6], key="skeleton"))
+
+
+def extract_facts(res):
+    """run the go/types extractor on /repo's current working tree; returns (facts, selects, blocking) or None"""
+    binp = facts_binary(res)
+    if not binp:
         return None
     facts, selects, blocking = [], [], []
     global BRACKETS
